@@ -16,13 +16,13 @@ def Table.bucket (t : Table) (b : Nat) : Bucket := t.getD b Bucket.zero
 
 /-- The signature the model extracts (in `LookUp` and in `Insert`) is the spec's signature. -/
 theorem sigOf_eq (h : BitVec 64) :
-    sigOf h Gen.Transp.lookupKeyShift = Spec.AbstractTT.sigOf h ∧
-    sigOf h Gen.Transp.insertKeyShift = Spec.AbstractTT.sigOf h := by
+    partialKeyOf h Gen.Transp.lookupKeyShift = Spec.AbstractTT.sigOf h ∧
+    partialKeyOf h Gen.Transp.insertKeyShift = Spec.AbstractTT.sigOf h := by
   have e1 : Gen.Transp.lookupKeyShift.toNat = 48 := by decide
   have e2 : Gen.Transp.insertKeyShift.toNat = 48 := by decide
   constructor <;>
   · apply BitVec.eq_of_toNat_eq
-    simp [sigOf, Spec.AbstractTT.sigOf, e1, e2, Nat.shiftRight_eq_div_pow]
+    simp [partialKeyOf, Spec.AbstractTT.sigOf, e1, e2, Nat.shiftRight_eq_div_pow]
 
 theorem Table.lookUp_eq (t : Table) (h : BitVec 64) :
     t.lookUp h = (t.bucket (bucketIx h t.size)).lookUp (Spec.AbstractTT.sigOf h) := by
@@ -105,31 +105,27 @@ def Abs (t : Table) (a : State) : Prop :=
 /-- Table invariant: at least one bucket, no duplicated non-zero signature in any bucket. -/
 def Inv (t : Table) : Prop := 0 < t.size ∧ ∀ b, b < t.size → NoDupSig (t.bucket b)
 
-/-- The quantifier of the property on one store: depth `0..63`, one of the three bound types. -/
-def StoreArgs.Valid (s : StoreArgs) : Prop := 0 ≤ s.d ∧ s.d ≤ 63 ∧ s.typ.toNat ≤ 2
+theorem validSize_iff (size : Nat) : Spec.AbstractTT.ValidSize size ↔ validSize size = true := by
+  simp [Spec.AbstractTT.ValidSize, validSize, bucketBytes]
 
-def Op.Valid : Op → Prop
-  | .store s => s.Valid
-  | .clear => True
-  | .resizeClear size => validSize size = true
+theorem validSize_ge (size : Nat) (h : Spec.AbstractTT.ValidSize size) : 32 ≤ size := by
+  have : Gen.Transp.bucketSize.toNat = 32 := by decide
+  rw [Spec.AbstractTT.ValidSize, this] at h
+  exact h.1
 
-def toSpecStore (s : StoreArgs) : Spec.AbstractTT.Store :=
-  ⟨s.hash, s.gen, s.d, s.ply, s.mv, s.value, s.typ⟩
-
-def toSpecOp : Op → Spec.AbstractTT.Op
-  | .store s => .store (toSpecStore s)
-  | .clear => .clear
-  | .resizeClear size => .resizeClear size
+theorem newStored_move (old : Option Stored) (s : StoreArgs) :
+    (newStored old s).move =
+      if s.mv = 0 then (match old with | some o => o.move | none => 0) else s.mv := rfl
 
 theorem rep_mk (s : StoreArgs) (hv : s.Valid) (old : Option Stored) (mv' : BitVec 16)
-    (hmv : mv' = (newStored old (toSpecStore s)).move) :
-    Rep (mkEntry mv' s.value s.ply s.d s.typ s.gen) (newStored old (toSpecStore s)) := by
+    (hmv : mv' = (newStored old s).move) :
+    Rep (mkEntry mv' s.value s.ply s.d s.typ s.gen) (newStored old s) := by
   obtain ⟨h0, h63, ht⟩ := hv
   have hp := pack_depth_typ s.d s.typ ⟨h0, h63⟩ (by omega) mv' (storedValue s.value s.ply) s.gen
   exact ⟨hp.1, hp.2, rfl, hmv, rfl⟩
 
 theorem keepCond_iff_keeps (e : Entry) (st : Stored) (s : StoreArgs) (hv : s.Valid) (hr : Rep e st) :
-    keepCond e s.gen s.d s.typ ↔ keeps (some st) (toSpecStore s) := by
+    keepCond e s.gen s.d s.typ ↔ keeps (some st) s := by
   obtain ⟨h0, h63, _⟩ := hv
   have hw : wrapS8 (s.d + Gen.Transp.keepDeeperMargin) = s.d + Gen.Transp.keepDeeperMargin := by
     simp only [Gen.Transp.keepDeeperMargin]
@@ -147,7 +143,7 @@ theorem keepCond_iff_keeps (e : Entry) (st : Stored) (s : StoreArgs) (hv : s.Val
 
 theorem bucket_sim (B : Bucket) (f : BMap) (s : StoreArgs) (hv : s.Valid) (hnd : NoDupSig B)
     (habs : BAbs B f) (k : Sig) :
-    ∃ f', BucketStore (toSpecStore s) k f f' ∧
+    ∃ f', BucketStore s k f f' ∧
       BAbs (B.insert k s.gen s.d s.ply s.mv s.value s.typ) f' := by
   by_cases hk0 : k = 0
   · -- signature 0
@@ -212,9 +208,9 @@ theorem bucket_sim (B : Bucket) (f : BMap) (s : StoreArgs) (hv : s.Valid) (hnd :
       | none => rw [(habs.none_iff k hk0).1 hf] at hl; cases hl
       | some st =>
         have hrep := habs.rep k st _ hk0 hf hl
-        have hnk : ¬ keeps (f k) (toSpecStore s) := by
+        have hnk : ¬ keeps (f k) s := by
           rw [hf]; exact fun h => hnkeep ((keepCond_iff_keeps _ st s hv hrep).2 h)
-        refine ⟨fun k' => if k' = k then some (newStored (f k) (toSpecStore s)) else f k',
+        refine ⟨fun k' => if k' = k then some (newStored (f k) s) else f k',
           .write _ hk0 hnk (by simp) ⟨none, fun k' hk' => by simp [hk']⟩, ?_⟩
         have hsame : ∀ k', k' ≠ k → (B.write j k (mkEntry (if s.mv = 0 then (B.get j).move else s.mv)
             s.value s.ply s.d s.typ s.gen)).lookUp k' = B.lookUp k' :=
@@ -230,7 +226,7 @@ theorem bucket_sim (B : Bucket) (f : BMap) (s : StoreArgs) (hv : s.Valid) (hnd :
           · subst e; rw [if_pos rfl, hown]; simp
           · simp only [e, if_false]; rw [hsame k' e]; exact habs.none_iff k' hk'
         · intro k' st' e' hk' h1 h2
-          have h1' : (if k' = k then some (newStored (f k) (toSpecStore s)) else f k') = some st' := h1
+          have h1' : (if k' = k then some (newStored (f k) s) else f k') = some st' := h1
           by_cases e : k' = k
           · subst e
             simp only [if_true] at h1'
@@ -238,9 +234,10 @@ theorem bucket_sim (B : Bucket) (f : BMap) (s : StoreArgs) (hv : s.Valid) (hnd :
             rw [hown] at h2
             cases h2
             apply rep_mk s hv
-            rw [hf]
-            simp only [newStored, toSpecStore, hrep.2.2.2.1]
-            rfl
+            rw [hf, newStored_move]
+            by_cases h0 : s.mv = 0
+            · rw [if_pos h0, if_pos h0]; exact hrep.2.2.2.1
+            · rw [if_neg h0, if_neg h0]
           · simp only [e, if_false] at h1'
             rw [hsame k' e] at h2
             exact habs.rep k' st' e' hk' h1' h2
@@ -248,9 +245,9 @@ theorem bucket_sim (B : Bucket) (f : BMap) (s : StoreArgs) (hv : s.Valid) (hnd :
       rw [he]
       have hl : B.lookUp k = none := (Bucket.lookUp_none_iff _ _).2 hm
       have hf : f k = none := (habs.none_iff k hk0).2 hl
-      have hnk : ¬ keeps (f k) (toSpecStore s) := by
+      have hnk : ¬ keeps (f k) s := by
         rw [hf]; rintro ⟨o, ho, _⟩; cases ho
-      refine ⟨fun k' => if k' = k then some (newStored (f k) (toSpecStore s))
+      refine ⟨fun k' => if k' = k then some (newStored (f k) s)
           else if k' = B.sig r then none else f k',
         .write _ hk0 hnk (by simp) ⟨some (B.sig r), fun k' hk' => ?_⟩, ?_⟩
       · by_cases e : k' = B.sig r
@@ -277,7 +274,7 @@ theorem bucket_sim (B : Bucket) (f : BMap) (s : StoreArgs) (hv : s.Valid) (hnd :
             · simp only [e2, if_false]
               rw [(hoth k' e).1 e2]; exact habs.none_iff k' hk'
         · intro k' st' e' hk' h1 h2
-          have h1' : (if k' = k then some (newStored (f k) (toSpecStore s))
+          have h1' : (if k' = k then some (newStored (f k) s)
               else if k' = B.sig r then none else f k') = some st' := h1
           by_cases e : k' = k
           · subst e
@@ -286,8 +283,7 @@ theorem bucket_sim (B : Bucket) (f : BMap) (s : StoreArgs) (hv : s.Valid) (hnd :
             rw [hown] at h2
             cases h2
             apply rep_mk s hv
-            rw [hf]
-            simp only [newStored, toSpecStore]
+            rw [hf, newStored_move]
             by_cases h0 : s.mv = 0
             · rw [if_pos h0]; exact h0
             · rw [if_neg h0]
@@ -314,18 +310,14 @@ theorem Inv_step (t : Table) (op : Op) (hv : op.Valid) (hinv : Inv t) : Inv (t.s
     simp only [Table.step, Table.bucket_clear]
     exact NoDupSig_zero
   | resizeClear size =>
-    have hsz : 32 ≤ size := by
-      have : validSize size = true := hv
-      simp [validSize, bucketBytes_eq] at this
-      omega
+    have hsz : 32 ≤ size := validSize_ge size hv
     refine ⟨by simp only [Table.step, Table.size_new]; omega, fun b _ => ?_⟩
     simp only [Table.step, Table.bucket_new]
     exact NoDupSig_zero
 
-theorem Inv_new (size : Nat) (hv : validSize size = true) : Inv (Table.new size) :=
+theorem Inv_new (size : Nat) (hv : Spec.AbstractTT.ValidSize size) : Inv (Table.new size) :=
   Inv_step (Table.new size) (.resizeClear size) hv ⟨by
-    have : validSize size = true := hv
-    simp [validSize, bucketBytes_eq] at this
+    have := validSize_ge size hv
     rw [Table.size_new]; omega, fun b _ => by rw [Table.bucket_new]; exact NoDupSig_zero⟩
 
 theorem Abs_new (size : Nat) : Abs (Table.new size) (State.empty (size / 32)) :=
@@ -333,7 +325,7 @@ theorem Abs_new (size : Nat) : Abs (Table.new size) (State.empty (size / 32)) :=
 
 /-- **Simulation**: a step of the model is a step of the abstract table. -/
 theorem sim_step (t : Table) (a : State) (op : Op) (hv : op.Valid) (hinv : Inv t) (habs : Abs t a) :
-    ∃ a', Spec.AbstractTT.Step bucketIx a (toSpecOp op) a' ∧ Abs (t.step op) a' := by
+    ∃ a', Spec.AbstractTT.Step bucketIx a op a' ∧ Abs (t.step op) a' := by
   cases op with
   | clear =>
     refine ⟨State.empty a.nb, .clear a, ?_⟩
@@ -348,14 +340,14 @@ theorem sim_step (t : Table) (a : State) (op : Op) (hv : op.Valid) (hinv : Inv t
     obtain ⟨f', hstore, hb'⟩ := bucket_sim (t.bucket (bucketIx s.hash t.size)) (a.m (bucketIx s.hash t.size))
       s hv (hinv.2 _ hix) (habs.2 _ hix) (Spec.AbstractTT.sigOf s.hash)
     refine ⟨⟨a.nb, fun b => if b = bucketIx s.hash t.size then f' else a.m b⟩, ?_, ?_⟩
-    · refine .store a _ (toSpecStore s) rfl ?_ ?_
+    · refine .store a _ s rfl ?_ ?_
       · intro b' hb
         show (if b' = bucketIx s.hash t.size then f' else a.m b') = a.m b'
         rw [← habs.1] at hb
         exact if_neg hb
-      · show BucketStore _ _ _ (if bucketIx (toSpecStore s).hash a.nb = bucketIx s.hash t.size then f' else _)
+      · show BucketStore _ _ _ (if bucketIx s.hash a.nb = bucketIx s.hash t.size then f' else _)
         rw [← habs.1]
-        simp only [toSpecStore, if_true]
+        simp only [if_true]
         exact hstore
     · refine ⟨by simp only [Table.step, Table.size_insert]; exact habs.1, fun b hb => ?_⟩
       simp only [Table.step, Table.size_insert] at hb ⊢
@@ -376,7 +368,7 @@ theorem Run.cons {bo : BitVec 64 → Nat → Nat} {a0 a1 a : State} {op : Spec.A
 
 theorem refines_from (ops : List Op) : ∀ (t : Table) (a : State), Inv t → Abs t a →
     (∀ op, op ∈ ops → op.Valid) →
-    ∃ a', Spec.AbstractTT.Run bucketIx a (ops.map toSpecOp) a' ∧ Abs (t.run ops) a' ∧ Inv (t.run ops) := by
+    ∃ a', Spec.AbstractTT.Run bucketIx a ops a' ∧ Abs (t.run ops) a' ∧ Inv (t.run ops) := by
   induction ops with
   | nil => intro t a hinv habs _; exact ⟨a, .nil, habs, hinv⟩
   | cons op ops ih =>
@@ -389,9 +381,9 @@ theorem refines_from (ops : List Op) : ∀ (t : Table) (a : State), Inv t → Ab
 
 /-- **tt_refines**: every run of the model from a fresh table is a run of the abstract table, and
     the invariant holds along the way. -/
-theorem refines (size : Nat) (hsize : validSize size = true) (ops : List Op)
+theorem refines (size : Nat) (hsize : Spec.AbstractTT.ValidSize size) (ops : List Op)
     (hv : ∀ op, op ∈ ops → op.Valid) :
-    ∃ a, Spec.AbstractTT.Run bucketIx (State.empty (size / 32)) (ops.map toSpecOp) a ∧
+    ∃ a, Spec.AbstractTT.Run bucketIx (State.empty (size / 32)) ops a ∧
       Abs ((Table.new size).run ops) a ∧ Inv ((Table.new size).run ops) :=
   refines_from ops _ _ (Inv_new size hsize) (Abs_new size) hv
 
